@@ -213,6 +213,80 @@ def gen_case(rnd, inline=False):
     return c
 
 
+ARG_SHAPES = ['W', 'W W', '\\ypm', 'W \\ypm', 'W\\ypm', '\\ypm{}', '\\LaTeX', 'W \\LaTeX', '\\ypn', 'W \\zzunk', '\\ypm W',
+              '\\textbf{W}', 'W \\S', '', ' W ', 'W\\ ']
+
+
+def gen_subst(rnd):
+    """substitution relation: a call and its hand-substituted body give the same text (white space included).
+    -> (definitions, document with the call, document with the body written out, description)"""
+    wid = [0]
+
+    def W(p='s'):
+        wid[0] += 1
+        return '%s%dz' % (p, wid[0])
+
+    def protect(a):
+        # token-level substitution = textual substitution, except that a control word at the end of the
+        # argument must not swallow the blank that follows #k in the body
+        return a + '{}' if re.search(r'\\[a-zA-Z]+$', a) else a
+    n = rnd.randint(1, 3)
+    elems = []
+    for j in range(rnd.randint(2, 6)):
+        elems.append('#%d' % rnd.randint(1, n) if rnd.random() < .5 else W('b'))
+    if not any(e.startswith('#') for e in elems):
+        elems[rnd.randrange(len(elems))] = '#1'
+    body = ''
+    for j, e in enumerate(elems):
+        body += e
+        if j < len(elems) - 1:
+            nxt = elems[j + 1]
+            if e.startswith('#') or nxt.startswith('#'):
+                body += rnd.choice([' ', ' ', '\n', '', '  ', ', '])
+            else:
+                body += ' '
+    kind = rnd.choice(['new', 'new', 'def'])
+    if kind == 'def':
+        d = '\\def\\yby%s{%s}' % (''.join('#%d' % k for k in range(1, n + 1)), body)
+    else:
+        d = '\\newcommand{\\yby}[%d]{%s}' % (n, body)
+    defs = '\\newcommand{\\ypm}{ypmz}\n\\newcommand{\\ypn}{}\n' + d + '\n'
+    args = []
+    for k in range(n):
+        a = rnd.choice(ARG_SHAPES)
+        while 'W' in a:
+            a = a.replace('W', W('a'), 1)
+        args.append(a)
+    call = '\\yby'
+    for a in args:
+        if re.fullmatch(r'\\[a-zA-Z]+', a) and rnd.random() < .5:
+            call += rnd.choice(['', ' ']) + a           # single-token argument without braces
+        else:
+            call += rnd.choice(['', '', ' ']) + '{' + a + '}'
+    subst = body
+    for k in range(n, 0, -1):
+        subst = subst.replace('#%d' % k, protect(args[k - 1]))
+    tail = rnd.choice([' ', '\n', '{} ', ', '])
+    where = rnd.choice(['direct', 'direct', 'inner', 'arg'])
+    if where == 'direct':
+        doc = W('u') + ' ' + call + tail + W('u')
+        ref = doc.replace(call, protect(subst) if tail[0].isspace() else subst, 1)
+    elif where == 'inner':
+        # the call is written inside the body of another macro
+        x1, x2 = W('x'), W('x')
+        defs += '\\newcommand{\\youter}{%s %s %s}\n' % (x1, call, x2)
+        u1, u2 = W('u'), W('u')
+        doc = u1 + ' \\youter{} ' + u2
+        ref = u1 + ' ' + x1 + ' ' + subst + ' ' + x2 + '{} ' + u2
+    else:
+        # the call is the argument of a declared / unknown macro
+        m = rnd.choice(['\\textbf', '\\zzmac', '\\footnote', '\\textcolor{red}'])
+        u1, u2 = W('u'), W('u')
+        doc = u1 + ' ' + m + '{' + call + '} ' + u2
+        ref = u1 + ' ' + m + '{' + subst + '} ' + u2
+    return defs, doc, ref, dict(where=where, kind=kind, args=args, body=body)
+
+
 class C09(core.Check):
     id = 'C09'
     level = 'exploration'
@@ -222,7 +296,9 @@ class C09(core.Check):
             'redefinitions) and documents with 1-7 uses (braced, bracketed, single-token and two-word arguments, '
             'layout variants). routes: D+B in one text, B with defs=D, \\LTinput{file(D)}+B: same text, maps shifted '
             'by a constant, D alone leaves no text. inline: definitions interleaved with uses (use before definition '
-            '= unknown macro, redefinition affects later uses only). non-trivial = at least one call of a defined '
+            '= unknown macro, redefinition affects later uses only). substitution relation: a call (direct, inside the body '
+            'of another macro, inside an argument; arguments ending with control words, empty, single-token) and the '
+            'body written out by hand with #k replaced give the same text, white space included. non-trivial = at least one call of a defined '
             'macro with >= 1 parameter or nested call; distinct = distinct generator seed')
     level_text = ('Exploration: thousands of random definition sets and documents per run, each judged against a '
                   'reference expander (word stream and position constraints) and by the equality relation between '
@@ -244,6 +320,9 @@ class C09(core.Check):
         for i in range(n):
             yield dict(s=rnd.getrandbits(48), inline=(i % 4 == 3), lang=rnd.choice(['en', 'de']),
                        pack=rnd.choice(['*', '']))
+        for i in range((4000 if tier == 'quick' else 80000) // nshards):
+            yield dict(fam='subst', s=rnd.getrandbits(48), lang=rnd.choice(['en', 'de']), pack=rnd.choice(['*', '']),
+                       route=rnd.choice(['doc', 'defs']))
 
     def check_stream(self, c, t, p, shift):
         """words of the output vs expected; -> problem or None"""
@@ -267,7 +346,30 @@ class C09(core.Check):
                         return ('body-position', dict(word=w, got=q - shift, span=[a, b]))
         return None
 
+    def judge_subst(self, case):
+        defs, doc, ref, what = gen_subst(random.Random(case['s']))
+        opts = dict(lang=case['lang'], pack=case['pack'])
+        if case['route'] == 'doc':
+            (t1, p1), e1 = tex.run(defs + doc, **opts)
+            (t2, p2), e2 = tex.run(defs + ref, **opts)
+        else:
+            (t1, p1), e1 = tex.run(doc, defs=defs, **opts)
+            (t2, p2), e2 = tex.run(ref, defs=defs, **opts)
+        cnt = {'subst_cases': 1, 'subst_' + what['where']: 1}
+        if any(re.search(r'\\[a-zA-Z]+$', a) for a in what['args']):
+            cnt['subst_arg_ends_with_control_word'] = 1
+
+        def norm(t):
+            return re.sub(r'\s+', ' ', t).strip()
+        if e1 or e2 or norm(t1) != norm(t2):
+            return dict(ok=False, nt=True, key='substitution:' + ('stderr' if e1 or e2 else what['where']), cnt=cnt,
+                        obs=None, detail=dict(defs=defs, call_document=doc, substituted_document=ref, call_text=t1,
+                                              substituted_text=t2, stderr=e1 + e2, what=what))
+        return dict(ok=True, nt=True, key=None, cnt=cnt, obs=dict(doc=tex.short(doc, 120), text=tex.short(norm(t1), 100)))
+
     def judge(self, case):
+        if case.get('fam') == 'subst':
+            return self.judge_subst(case)
         c = gen_case(random.Random(case['s']), inline=case['inline'])
         opts = dict(lang=case['lang'], pack=case['pack'])
         cnt = {'inline' if c.inline else 'routes': 1, 'calls': c.n_calls, 'unknown_uses': c.n_unknown_uses,
@@ -322,7 +424,7 @@ class C09(core.Check):
                     obs=dict(D=tex.short(D, 200), B=tex.short(B, 150), plain=tex.short(t2, 120)))
 
     def quotas(self, tier):
-        return {'routes': 2000, 'inline': 500, 'ltinput_twice': 300, 'calls': 5000, 'unknown_uses': 100, 'default_used': 300,
+        return {'subst_cases': 3000, 'subst_inner': 500, 'subst_arg': 500, 'subst_arg_ends_with_control_word': 500, 'routes': 2000, 'inline': 500, 'ltinput_twice': 300, 'calls': 5000, 'unknown_uses': 100, 'default_used': 300,
                 'nested_calls': 500}
 
 
